@@ -2209,3 +2209,9 @@ package ion
 //@ ensures[C12,C19] err != nil ==> w.err != nil
 //@ atcall[C01,C04] (*binaryWriter).writeValue#1 [vlength uint64] uint64(len(a2)) == vlength+specTagLen(vlength)
 //@ atcall[C01,C04] (*binaryWriter).writeValue#0 len(a2) == 1 && a2[0] == 0x50
+
+// The text writer sets the pending field name and annotations aside before it writes its
+// symbol table through itself: they belong to the value, not to the table (C04, C01).
+//@ func (*textWriter).beginValue
+//@ modifies *
+//@ atcall[C01,C04] SymbolTable.WriteTo :: SymbolTable, Writer :: len(w.annotations) == 0 && w.fieldName == nil
